@@ -87,6 +87,42 @@ def cases(tier, seed):
         op = rng.choice(BIN_OPS[:-1])
         out.append(dict(kind='perm-history', cfg=cfg, route=rng.choice(ROUTES[:3]), op=op, arity=2, perms=perms, kb=kb,
                         permute_b=bool(rng.random() < 0.5)))
+    # --- perm histories in d = 5, 6: keys of two digits (any positional/hex encoding of the key order must stay injective)
+    for _ in range(16 if tier == 'quick' else 120):
+        d = rng.choice((5, 5, 6))
+        cfg = dict(p=d) if rng.random() < 0.5 else dict(p=d - 1, r=1)
+        lo = rng.sample(range(0, 16), 2)
+        hi = rng.sample(range(16, 2 ** d), rng.choice((1, 2)))
+        ks = (lo + hi)[:3]
+        perms = [list(p) for p in itertools.permutations(ks)]
+        kb = [rng.randrange(2 ** d)]
+        op = rng.choice(['gp', 'op', 'ip', 'add', 'sub', 'cp'])
+        un = rng.choice(['neg', 'reverse', 'involute', 'normsq'])
+        route = rng.choice(['wrapper', 'register'])
+        out.append(dict(kind='perm-history', cfg=cfg, route=route, op=op, arity=2, perms=perms, kb=kb, permute_b=False))
+        out.append(dict(kind='perm-history', cfg=cfg, route=route, op=un, arity=1, perms=perms))
+    # --- name classes: ordered key tuples over a pool whose decimal/hex spellings are concatenations of
+    #     each other (1,0 | 16=0x10 ; 1,1 | 17=0x11=11 ...): whatever encodes the key order in a
+    #     generated-function name must be injective, or the members of a name class must be equivalent
+    for cfg in (dict(p=5), dict(p=4, r=1)) + ((dict(p=6),) if tier == 'thorough' else ()):
+        for op, ar in (('neg', 1), ('reverse', 1), ('add', 2), ('gp', 2)):
+            out.append(dict(kind='name-classes', cfg=cfg, op=op, arity=ar, pool=[0, 1, 2, 16, 17, 18, 10, 11, 26, 33][: (10 if tier == 'thorough' else 8)],
+                            maxlen=3, kb=[1, 2]))
+    # --- operator sweeps: EVERY operator on the same operands, then every one again (two operators must
+    #     never share a generated-function name)
+    for route in ('wrapper', 'register'):
+        for cfg in cfgs2 + [dict(p=3), dict(p=2, r=1), dict(p=2, q=1)]:
+            d = sum(cfg.values())
+            for _ in range(3 if tier == 'quick' else 12):
+                ka = rng.sample(range(2 ** d), rng.choice((2, 3)))
+                kb = rng.sample(range(2 ** d), rng.choice((1, 2, 3)))
+                out.append(dict(kind='op-sweep', cfg=cfg, route=route, ka=ka, kb=kb))
+    # --- a wrapper (JIT) that fails once: the failed call must leave no trace
+    for _ in range(20 if tier == 'quick' else 100):
+        cfg = rng.choice(cfgs2 + [dict(p=3)])
+        d = sum(cfg.values())
+        out.append(dict(kind='flaky-wrapper', cfg=cfg, fail_at=rng.choice((1, 1, 2, 3)), op=rng.choice(BIN_OPS[:11] + UN_OPS[:6]),
+                        ka=rng.sample(range(2 ** d), 2), kb=rng.sample(range(2 ** d), 2)))
     # --- mixed histories
     n = 120 if tier == 'quick' else 1500
     L = 3 if tier == 'quick' else 4
@@ -147,7 +183,114 @@ def _unchanged_claims(tag, snaps):
 def run_case(desc, V):
     if desc['kind'] == 'perm-history':
         return _run_perm(desc, V)
+    if desc['kind'] == 'op-sweep':
+        return _run_sweep(desc, V)
+    if desc['kind'] == 'name-classes':
+        return _run_names(desc, V)
+    if desc['kind'] == 'flaky-wrapper':
+        return _run_flaky(desc, V)
     return _run_mixed(desc, V)
+
+
+def _run_names(desc, V):
+    cfg = dict(desc['cfg'], wrapper='identity')
+    alg = make_alg(cfg)
+    op, ar = desc['op'], desc['arity']
+    opd = getattr(alg, op)
+    pool = [k for k in desc['pool'] if k < 2 ** alg.d]
+    classes = {}
+    for n in range(2, desc['maxlen'] + 1):
+        for ks in itertools.permutations(pool, n):
+            key = (tuple(ks), tuple(desc['kb'])) if ar == 2 else tuple(ks)
+            keys_out, func = opd[key]
+            classes.setdefault(func.__name__, []).append(tuple(ks))
+    claims = [Note('nontrivial', '')]
+    shared = {n: m for n, m in classes.items() if len(m) > 1}
+    claims.append(Eq('names-enumerated', len(classes) > 0, True))
+    checked = 0
+    for name, members in sorted(shared.items()):
+        if checked >= 12:
+            break
+        A, B = members[0], members[1]
+        checked += 1
+        xa, xb = mv(alg, V, f'A{checked}', A), mv(alg, V, f'B{checked}', B)
+        y = mv(alg, V, f'y{checked}', desc['kb'])
+        seq = [xa, xb, xa]
+        for j, x in enumerate(seq):
+            args = [x, y] if ar == 2 else [x]
+            r = _call(alg, 'wrapper', op, ar, args, {})
+            want = _fresh_result(desc['cfg'], op, ar, args)
+            claims += mv_eq_claims(f'{name}:{A}/{B}#{j}', r, coeffs(want), fkey='name-classes|shared-name-not-equivalent')
+    return claims
+
+
+def _run_sweep(desc, V):
+    cfg = dict(desc['cfg'])
+    route = desc['route']
+    if route == 'wrapper':
+        cfg['wrapper'] = 'identity'
+    alg = make_alg(cfg)
+    regs = {}
+    a = mv(alg, V, 'a', desc['ka'])
+    b = mv(alg, V, 'b', desc['kb'])
+    plan = [(op, 2, [a, b]) for op in BIN_OPS] + [(op, 1, [a]) for op in UN_OPS] + [(op, 1, [b]) for op in ('polarity', 'unpolarity', 'hodge', 'unhodge') if not (alg.r and 'polarity' in op)]
+    claims = []
+    snaps = _snapshot([a, b])
+    wants = {}
+    for op, ar, args in plan:            # phase 1: generate everything
+        try:
+            _call(alg, route, op, ar, args, regs)
+        except ZeroDivisionError:
+            pass
+    for i, (op, ar, args) in enumerate(plan):       # phase 2: call again, compare with a fresh algebra
+        try:
+            want = _fresh_result(desc['cfg'], op, ar, args)
+        except ZeroDivisionError:
+            want = None
+        try:
+            r = _call(alg, route, op, ar, args, regs)
+        except ZeroDivisionError:
+            r = None
+        if (r is None) != (want is None):
+            claims.append(Fail(f'raise-mismatch[{op}]', f'{op}: history {"raised" if r is None else "returned"}, fresh algebra {"raised" if want is None else "returned"}',
+                               fkey=f'op-sweep|route={route}|raise'))
+        elif r is not None:
+            claims += mv_eq_claims(f'{op}#{i}', r, coeffs(want), fkey=f'op-sweep|route={route}')
+    claims += _unchanged_claims('sweep', snaps)
+    return claims
+
+
+def _run_flaky(desc, V):
+    from ..kapi import WrapperFailure
+    cfg = dict(desc['cfg'], wrapper=f'flaky{desc["fail_at"]}')
+    alg = make_alg(cfg)
+    op = desc['op']
+    ar = 2 if op in BIN_OPS else 1
+    a = mv(alg, V, 'a', desc['ka'])
+    b = mv(alg, V, 'b', desc['kb'])
+    args = [a, b] if ar == 2 else [a]
+    claims = []
+    try:
+        want = _fresh_result(desc['cfg'], op, ar, args)
+    except ZeroDivisionError:
+        return [Eq('void', 1, 1)]
+    failed = 0
+    for attempt in range(4):
+        try:
+            r = _call(alg, 'plain', op, ar, args, {})
+        except WrapperFailure:
+            failed += 1
+            continue
+        except ZeroDivisionError:
+            return [Eq('void', 1, 1)]
+        except Exception as e:  # noqa
+            return [Fail('after-failed-wrapper', f'{op}: call number {attempt + 1} after a failing wrapper application raised {type(e).__name__}: {e} (a fresh algebra returns)',
+                         fkey='flaky-wrapper|trace-of-failed-call')]
+        claims += mv_eq_claims(f'call{attempt}', r, coeffs(want), fkey='flaky-wrapper|value')
+    if failed > 1:
+        claims.append(Fail('wrapper-failed-more-than-once', f'{failed} wrapper failures for a wrapper that fails once', fkey='flaky-wrapper|harness'))
+    claims.append(Note('nontrivial', ''))
+    return claims
 
 
 def _run_perm(desc, V):
